@@ -33,10 +33,37 @@ func NamedCaptures(regexString string) (map[string][]string, error) {
 	return extracts, nil
 }
 
+// HasEmptyWidthAssertion reports whether the expression contains an assertion
+// about the text around a position (^ $ \A \z \b \B).
+func HasEmptyWidthAssertion(regexString string) (bool, error) {
+	r, err := syntax.Parse(regexString, syntax.Perl)
+	if err != nil {
+		return false, err
+	}
+	stack := []*syntax.Regexp{r}
+	for len(stack) != 0 {
+		cur := stack[len(stack)-1]
+		stack = append(stack[:len(stack)-1], cur.Sub...)
+		switch cur.Op {
+		case syntax.OpBeginLine, syntax.OpEndLine, syntax.OpBeginText, syntax.OpEndText, syntax.OpWordBoundary, syntax.OpNoWordBoundary:
+			return true, nil
+		}
+	}
+	return false, nil
+}
+
 func ConstantSuffix(regexString string) ([]byte, error) {
 	r, err := syntax.Parse(regexString, syntax.Perl)
 	if err != nil {
 		return nil, err
+	}
+	// the suffix is used to cut the searched text (at the suffix, or to a window of
+	// fixed size before it); an assertion like $ or \b has to keep seeing the text
+	// around the match, so no suffix is reported for such expressions
+	if emptyWidth, err := HasEmptyWidthAssertion(regexString); err != nil {
+		return nil, err
+	} else if emptyWidth {
+		return nil, nil
 	}
 	p, err := syntax.Compile(r.Simplify())
 	if err != nil {
